@@ -488,7 +488,7 @@ def _fixed_of(spec: dict[str, Any]) -> str | None:
     return None
 
 
-def expectation(spec: dict[str, Any], args: tuple[Any, ...], exp: tuple[str, Any]) -> tuple[str, Any]:
+def expectation(spec: dict[str, Any], args: tuple[Any, ...], exp: tuple[str, Any]) -> tuple[Any, ...]:
     """What the property demands of the compiled call, given the interpreter's outcome `exp`.
 
     Returns one of
@@ -619,7 +619,7 @@ def describe(spec: dict[str, Any]) -> str:
     return f"{spec['kind']}:{spec['op']}:{','.join(spec['pt']) or 'literals'}"
 
 
-def violation_key(spec: dict[str, Any], args: tuple[Any, ...], want: tuple[str, Any], got: tuple[str, Any]) -> str:
+def violation_key(spec: dict[str, Any], args: tuple[Any, ...], want: tuple[Any, ...], got: tuple[str, Any]) -> str:
     """Mechanism key = (how the outcome differs) : (path selected by the witness). Never operand values."""
     if want[0] == "raise":
         if tuple(want[1]) == CONV_EXC:
